@@ -49,6 +49,23 @@ def cases(draw, tier="quick"):
             "derive_ord": S.chance(draw, 0.3), "seed": draw(st.integers(0, 2 ** 31))}
 
 
+def fixed_cases(tier):
+    """Run-length matrix (runs of 1 / 63 ... 257 values) and run-count matrix, with histories that cross the run
+    boundary from both ends one step at a time and in one jump."""
+    out = []
+    specs = C.run_length_specs({(1, 64), (63, 64), (64, 64), (65, 64), (64, 1), (65, 65), (127, 128), (128, 128), (129, 63), (255, 1), (256, 63), (257, 65), (2, 128)}) + C.run_count_specs([16, 17, 64, 65, 128, 129, 255, 256, 257])
+    for spec in specs:
+        m = M.RefEnum(spec)
+        n = m.n
+        sv = m.sorted_values
+        cut = next(i for i in range(1, n) if sv[i] != sv[i - 1] + 1)
+        hists = [["collect"], ["rev"], ["l", "nth:%d" % max(0, cut - 2), "n", "n", "n", "l", "collect"],
+                 ["nthb:%d" % max(0, n - cut - 2), "b", "b", "b", "l", "rev"], ["nth:%d" % cut, "nthb:%d" % max(0, n - cut - 3), "l", "collect"],
+                 ["nth:%d" % (cut - 1), "l", "b", "fold"], ["nthb:%d" % (n - cut - 1), "l", "n", "rfold"]]
+        out.append({"spec": spec, "base": S.simple_config([]), "hists": hists, "nrand": 6, "derive_ord": False, "seed": 1})
+    return out
+
+
 def run_case(case):
     out = J.Outcome()
     spec = dict(case["spec"])
